@@ -268,3 +268,26 @@ def trees_equal(a, b) -> bool:
             except ser.Unsupported:
                 return False
     return True
+
+
+def vectorised_worklist():
+    """Deterministic (expression, V) pairs hitting EVERY vectorised closure: each of the 10 elementwise ops and a
+    range of powers, with V = exactly the vector (full path), a superset and a permutation (sparse path)."""
+    from optyx import VectorVariable, Variable
+    out = []
+    ops = ["sin", "cos", "tan", "exp", "log", "abs", "sqrt", "sinh", "cosh", "tanh"]
+    powers = [1, 2, 3, 4, 0.5, 1.5, -1, -2, 0]
+    k = 0
+    for op in ops:
+        x = VectorVariable(f"u{k}", 3); k += 1
+        e = gen.FN[op](x).sum()
+        out.append((e, list(x)))
+        out.append((e, [Variable("aa_extra")] + list(x)))
+        out.append((e, list(x)[::-1]))
+    for p in powers:
+        x = VectorVariable(f"u{k}", 3); k += 1
+        e = (x ** p).sum()
+        out.append((e, list(x)))
+        out.append((e, list(x) + [Variable("zz_extra")]))
+        out.append((e, [x[1], x[0], x[2]]))
+    return out
